@@ -155,6 +155,9 @@ func (w *world) fArrow(ctx context.Context, x int, out chan<- int) error {
 }
 func (w *world) fNext(x int) (int, error) {
 	w.called(x)
+	if d := w.c.delay(x); d > 0 {
+		time.Sleep(d) // a slow step function: the consumer is already waiting when the next value is ready
+	}
 	if w.c.fails(x) {
 		return 0, idErr(x)
 	}
@@ -286,11 +289,12 @@ func (w *world) build() {
 // ---------------------------------------------------------------- list oracle (uncancelled result for the planned inputs)
 
 type expectT struct {
-	outs  [][]int // per value output, in order
-	errs  []int   // error ids, in order
-	calls []int   // arguments of the user function, in order (sequential stages)
-	eat   int     // number of input elements the stage may consume at most (-1: all)
-	kind  string  // seq | multiset | interleave
+	outs    [][]int // per value output, in order
+	errs    []int   // error ids, in order
+	calls   []int   // arguments of the user function, in order (sequential stages)
+	eat     int     // number of input elements the stage may consume at most (-1: all)
+	kind    string  // seq | multiset | interleave
+	partial bool    // fork stage in fail-fast mode: a failing worker stops, the others go on — only sub-multisets are known
 }
 
 func (c *caseT) expect() expectT {
@@ -381,6 +385,14 @@ func (c *caseT) expect() expectT {
 	}
 	if len(c.Stage) > 5 && c.Stage[:5] == "fork." {
 		e.kind = "multiset"
+		if c.Mode == "lift" && len(c.Fail) > 0 && (c.Stage == "fork.Map" || c.Stage == "fork.FMap") {
+			// each failing worker reports its error and stops; which elements the remaining workers get to see
+			// depends on the schedule: the complete images / errors are upper bounds
+			c2 := *c
+			c2.Mode = "try"
+			e2 := c2.expect()
+			e.outs, e.errs, e.partial = e2.outs, e2.errs, true
+		}
 	}
 	return e
 }
